@@ -27,7 +27,9 @@ Definition DInv (maxsz : N) (t : table) : Prop :=
   (forall e, In e (synced_of t) -> exists f, dget (efile e) (t_data t) = Some f /\ eoff e <= N.of_nat (fdur f)) /\
   (* the files tail..head exist and are open; every handle refers to an existing file *)
   (forall id, t_tail t <= id <= t_head t -> has t id /\ In id (t_open t)) /\
-  OD t.
+  OD t /\
+  (* no handle beyond the head file *)
+  (forall id, In id (t_open t) -> id <= t_head t).
 
 (* ---------- small facts ---------- *)
 Lemma rest_of_inv t rest :
@@ -404,7 +406,7 @@ Theorem open_crash_ok maxsz t ci cd (cm : bool) :
                     eoff e <= fsize f' /\
                     firstn (N.to_nat (eoff e)) (fbytes f') = firstn (N.to_nat (eoff e)) (fbytes f)).
 Proof.
-  intros (HI & DG & DH & DI & DJ & DL & DN & DO) [Hci Hcd] vt.
+  intros (HI & DG & DH & DI & DJ & DL & DN & DO & DP) [Hci Hcd] vt.
   destruct (synced_facts maxsz t HI) as (HF & HP & Hwfh & Hvs & Hsms & Hsub & Htl & Hlh & Hitems & Hmono).
   set (syn := synced_of t) in *. set (F := mflush (t_mcur t)) in *. set (lastE := lastF t) in *.
   pose proof HI as HI0. unfold IdxInv, core, IdxInvC in HI0. inv_destruct HI0. clear Hb Hwf Hv Hhb Hsm.
@@ -510,7 +512,7 @@ Proof.
     - rewrite D11 in Hg by exact Ne. rewrite H8b in Hg by exact Ne. rewrite B11 in Hg by exact Ne.
       rewrite A4, Hd' in Hg. destruct (dget id (t_data t)) as [g0|]; [|discriminate].
       cbn [option_map] in Hg. inversion Hg. reflexivity. }
-  refine (conj _ (conj _ (conj _ (conj _ (conj _ (conj _ (conj _ _))))))).
+  refine (conj _ (conj _ (conj _ (conj _ (conj _ (conj _ (conj _ (conj _ _)))))))).
   - (* IdxInv *)
     unfold IdxInv, core, IdxInvC. rewrite D1, D2, D3, D4, D5, D6, D7, D9, D8.
     exists syn. cbn [f_sync fbytes fdur mflush mver]. rewrite C1, B1, A1.
@@ -536,4 +538,5 @@ Proof.
   - intros id Hid. apply D12 in Hid.
     destruct (N.eq_dec id (efile lastE)) as [->|Ne]; [exists (f_sync f8); exact D10|].
     destruct (Hfiles id ltac:(lia)) as [g Hg]. exists g. rewrite D11 by exact Ne. exact Hg.
+  - intros id Hid. apply D12 in Hid. rewrite D4. lia.
 Qed.
